@@ -695,19 +695,36 @@ async def client_half(ctx):
     wa = copy.deepcopy(w)
     for k in wa['async']:
         wa['async'][k] = False
-    # in-process agent on a UNIX socket in a private directory
+    # credential sources: {local key, agent-held key} x {plain, certificate attached from a file, certificate held
+    # by the agent}; in-process agents on UNIX sockets in a private directory.  wc trusts only the CA for alice.
+    wc = copy.deepcopy(w)
+    wc['ak'] = {'alice': [dict(key='CA1', ca=True, principals=['alice'])]}
+    await attempt('local_key_plain_ca_only', wc, None, username='alice', client_keys=[p.akey['K4']])
+    await attempt('local_key_cert_file', wc, 'alice', username='alice', client_keys=[(p.akey['K4'], cert)])
     d = tempfile.mkdtemp(prefix='c05-agent-', dir='/var/tmp')
-    path = os.path.join(d, 'agent.sock')
-    server = await asyncio.start_unix_server(lambda r, wr: agent_session(r, wr, ['K1']), path)
+    servers = []
     try:
+        async def agent(name, idents):
+            path = os.path.join(d, name + '.sock')
+            servers.append(await asyncio.start_unix_server(lambda r, wr: agent_session(r, wr, idents), path))
+            return path
+        path = await agent('a1', ['K1'])
         await attempt('agent', w, 'alice', username='alice', client_keys=(), agent_path=path)
         await attempt('agent_other_user', w, None, username='bob', client_keys=(), agent_path=path)
-    finally:
-        server.close()
+        path4 = await agent('a4', ['K4'])
+        await attempt('agent_key_plain_ca_only', wc, None, username='alice', client_keys=(), agent_path=path4)
+        ag = await A.connect_agent(path4)
         try:
-            await asyncio.wait_for(server.wait_closed(), 5)
-        except (asyncio.TimeoutError, OSError):
-            pass
+            akeys = list(await ag.get_keys())
+            await attempt('agent_key_cert_file', wc, 'alice', username='alice', client_keys=[(akeys[0], cert)])
+        finally:
+            ag.close()
+        pathc = await agent('ac', ['cert:C9'])
+        await attempt('agent_holds_cert', wc, 'alice', username='alice', client_keys=(), agent_path=pathc)
+    finally:
+        for server in servers:
+            server.close()
+        await memwire.settle(4)
         shutil.rmtree(d, ignore_errors=True)
     ctx.cov['oracle']['client_half'] = [[a, b] for a, b, _, _ in results]
 
@@ -787,6 +804,166 @@ async def restriction_factories(ctx):
     ctx.cov['oracle']['restriction_factories'] = out
 
 
+# ---------------------------------------------------------------------------------------------------
+# host-based authentication: oracle + decision correspondence
+
+HB_RESOLVED = 'hostx.example'          # what the server resolves the peer address 10.0.0.1 to
+HB_HOSTS = {'hostx.example': 'K1', 'hosty.example': 'K2'}       # known_client_hosts
+
+
+def hb_request(user, claimed, keyname, sid, signer=None, tamper=None, client_user='cu'):
+    from .. import minissh as M
+    p = E.pool()
+    body = M.sstr('ssh-ed25519') + M.sstr(p.blob[keyname]) + M.sstr(claimed) + M.sstr(client_user)
+    head = M.sstr(user) + M.sstr('ssh-connection') + M.sstr('hostbased')
+    s_sid = sid if tamper != 'sid' else b'\0' * len(sid)
+    s_body = body if tamper != 'host' else (M.sstr('ssh-ed25519') + M.sstr(p.blob[keyname]) + M.sstr(HB_RESOLVED) +
+                                            M.sstr(client_user))
+    raw = p.priv[signer or keyname].sign(M.sstr(s_sid) + b'\x32' + head + s_body)
+    if tamper == 'flip':
+        raw = bytes([raw[0] ^ 1]) + raw[1:]
+    return b'\x32' + head + body + M.sstr(M.sstr('ssh-ed25519') + M.sstr(raw))
+
+
+async def hb_connection(trust, user_ok_hosts, attempts):
+    """one connection, a list of host-based attempts (claimed, key, signer, tamper); returns per attempt whether
+    USERAUTH_SUCCESS followed, and the auth_completed log"""
+    import asyncssh
+    import base64
+    from .. import minissh as M
+    from ..minissh_selftest import Link
+    p = E.pool()
+    loop = asyncio.get_running_loop()
+
+    async def fake_getnameinfo(sockaddr, flags=0):
+        return (HB_RESOLVED, str(sockaddr[1]))
+    loop.getnameinfo = fake_getnameinfo
+    E.executor().manual = False
+    log = []
+
+    class Srv(asyncssh.SSHServer):
+        def connection_made(self, conn):
+            self.conn = conn
+
+        def begin_auth(self, username):
+            return True
+
+        def validate_host_based_user(self, username, client_host, client_username):
+            log.append(('user', username, client_host, client_username))
+            return client_host in user_ok_hosts
+
+        def auth_completed(self):
+            log.append(('completed', self.conn.get_extra_info('username')))
+    kh = ''.join('%s ssh-ed25519 %s\n' % (h, base64.b64encode(p.blob[k]).decode()) for h, k in HB_HOSTS.items())
+    mini = M.MiniSSH('client', kex_algs=[b'curve25519-sha256'], enc_algs=[b'aes128-ctr'], mac_algs=[b'hmac-sha2-256'])
+    link = Link(mini)
+    link.transport = E.PeerTransport(link, E.PEERS['ipv4'])
+    acc = await asyncssh.listen('mem', 22, tunnel=link, server_factory=Srv, server_host_keys=[p.akey['CA2']],
+                                known_client_hosts=asyncssh.import_known_hosts(kh), trust_client_host=trust)
+    link.attach(link.server_factory(E.PEER_ADDR, 40000))
+    results = []
+    try:
+        await link.until(lambda: mini.kex_count == 1, 'initial key exchange')
+        mini.send(M.client_service_request('ssh-userauth'))
+        await link.expect(M.MSG_SERVICE_ACCEPT, 'SERVICE_ACCEPT')
+        for claimed, keyname, signer, tamper in attempts:
+            start = len(mini.inbox)
+            mini.send(hb_request('alice', claimed, keyname, mini.session_id, signer, tamper))
+            await link.until(lambda: any(t in (51, 52, 1) for t, _ in mini.inbox[start:]) or link.closed, 'reply')
+            results.append(any(t == 52 for t, _ in mini.inbox[start:]))
+            if results[-1] or link.closed:
+                break
+    finally:
+        if link.conn is not None:
+            link.conn.abort()
+        acc.close()
+        await asyncio.sleep(0)
+    return results, log
+
+
+def hb_spec(trust, user_ok_hosts, claimed, keyname, signer, tamper):
+    """accepted only if the key is trusted for the RESOLVED host (claimed one only under trust_client_host), the
+    signature is by that key over session id || this request, and the application agrees"""
+    stripped = claimed[:-1] if claimed.endswith('.') else claimed
+    host = stripped if trust else HB_RESOLVED
+    return HB_HOSTS.get(host) == keyname and (signer or keyname) == keyname and tamper is None and stripped in user_ok_hosts
+
+
+def stage_hostbased(ctx):
+    p = E.pool()
+    both = ['hostx.example', 'hosty.example']
+    cases, lits = [], []
+    for trust in (False, True):
+        for claimed in ('hostx.example', 'hosty.example', 'hostx.example.', 'evil.example'):
+            for keyname in ('K1', 'K2', 'K3'):
+                for signer, tamper in ((None, None), ('K3', None), (None, 'flip'), (None, 'sid'), (None, 'host')):
+                    if tamper == 'host' and claimed.rstrip('.') == HB_RESOLVED:
+                        continue
+                    for ok_hosts in (both, ['hosty.example']):
+                        cases.append((trust, ok_hosts, claimed, keyname, signer, tamper))
+    if ctx.tier != 'thorough':
+        cases = [c for i, c in enumerate(cases) if c[5] in (None,) or i % 3 == 0]
+    n_acc = 0
+    for trust, ok_hosts, claimed, keyname, signer, tamper in cases:
+        (res, log) = E.sshutil_run(hb_connection(trust, ok_hosts, [(claimed, keyname, signer, tamper)]))
+        got = bool(res and res[0])
+        want = hb_spec(trust, ok_hosts, claimed, keyname, signer, tamper)
+        n_acc += got
+        ctx.note_case(('hostbased', trust, tuple(ok_hosts), claimed, keyname, signer, tamper), nontrivial=True)
+        ctx.count('hostbased.' + ('accepted' if got else 'refused'))
+        if claimed.rstrip('.') != HB_RESOLVED:
+            ctx.count('hostbased.spoofed_name')
+        if got and not want:
+            ctx.failing_input('host-based: client at the address resolving to %r claiming host %r with the key of %r (signer %r, '
+                              'tamper %r, trust_client_host=%r) was authenticated: the key is not trusted for that host / the '
+                              'signature does not cover this request' % (HB_RESOLVED, claimed, [h for h, k in HB_HOSTS.items()
+                                                                                              if k == keyname], signer or keyname,
+                                                                         tamper, trust),
+                              {'kind': 'hostbased', 'class': 'auth_without_check', 'trust_client_host': trust,
+                               'user_ok_hosts': ok_hosts, 'attempts': [[claimed, keyname, signer, tamper]]})
+        elif want and not got:
+            ctx.failing_input('host-based: a valid host-based credential was refused (claimed %r key %r trust=%r)'
+                              % (claimed, keyname, trust),
+                              {'kind': 'hostbased', 'class': 'valid_credential_refused', 'trust_client_host': trust,
+                               'user_ok_hosts': ok_hosts, 'attempts': [[claimed, keyname, signer, tamper]]})
+        sig_ok = (signer or keyname) == keyname and tamper is None
+        user_ok = claimed.rstrip('.') in ok_hosts if claimed.endswith('.') else claimed in ok_hosts
+        lits.append('(%s, %s, %s, %s, %d, %s, %s, %s)' % (
+            E.cbool(trust), E.ctext(claimed), E.ctext(HB_RESOLVED),
+            E.clist(sorted(HB_HOSTS.items()), lambda hk: '(%s, %d)' % (E.ctext(hk[0]), p.kid[hk[1]])),
+            p.kid[keyname], E.cbool(sig_ok), E.cbool(user_ok), E.cbool(got)))
+    bad = ctx.coq_cases('hostbased', IMPORTS, 'chk_hostbased', lits,
+                        ty='bool * bytes * bytes * list (bytes * Z) * Z * bool * bool * bool')
+    if bad:
+        ctx.broke('correspondence:hostbased', '%d of %d differ; first: %s' % (len(bad), len(lits), lits[bad[0]]))
+    if not n_acc or not ctx.cov['distribution'].get('hostbased.spoofed_name'):
+        ctx.broke('vacuity:hostbased', 'no accepted / no spoofed host-based attempt')
+    # several attempts on one connection: nothing learnt in an earlier attempt may help a later one
+    seqs = [
+        (True, ['hosty.example'], [('hostx.example', 'K1', None, None), ('hosty.example', 'K1', None, None)]),
+        (True, ['hosty.example'], [('hostx.example', 'K3', None, None), ('hosty.example', 'K1', None, None)]),
+        (False, ['hostx.example', 'hosty.example'], [('hosty.example', 'K2', None, None), ('hostx.example', 'K2', None, None)]),
+        (True, ['hostx.example', 'hosty.example'], [('evil.example', 'K1', None, None), ('hosty.example', 'K2', None, None)]),
+    ]
+    for trust, ok_hosts, attempts in seqs:
+        res, log = E.sshutil_run(hb_connection(trust, ok_hosts, attempts))
+        ctx.note_case(('hostbased-seq', trust, tuple(ok_hosts), tuple(attempts)), nontrivial=True)
+        for (claimed, keyname, signer, tamper), got in zip(attempts, res):
+            want = hb_spec(trust, ok_hosts, claimed, keyname, signer, tamper)
+            ctx.count('hostbased.seq.' + ('accepted' if got else 'refused'))
+            if got and not want:
+                ctx.failing_input('host-based, %d attempts on one connection %r (trust_client_host=%r): the attempt claiming %r '
+                                  'with key %r was accepted although that key is not trusted for that host - trusted keys '
+                                  'looked up for an EARLIER attempt are still in the set' % (len(attempts), attempts, trust,
+                                                                                              claimed, keyname),
+                                  {'kind': 'hostbased', 'class': 'hostbased_keys_accumulate', 'trust_client_host': trust,
+                                   'user_ok_hosts': ok_hosts, 'attempts': [list(a) for a in attempts]})
+            elif want and not got:
+                ctx.failing_input('host-based sequence: valid credential refused %r' % (attempts,),
+                                  {'kind': 'hostbased', 'class': 'valid_credential_refused', 'trust_client_host': trust,
+                                   'user_ok_hosts': ok_hosts, 'attempts': [list(a) for a in attempts]})
+
+
 async def agent_session(reader, writer, keynames):
     """minimal ssh-agent (draft-miller-ssh-agent): REQUEST_IDENTITIES and SIGN_REQUEST for Ed25519 keys"""
     from .. import minissh as M
@@ -796,12 +973,16 @@ async def agent_session(reader, writer, keynames):
             hdr = await reader.readexactly(4)
             body = await reader.readexactly(int.from_bytes(hdr, 'big'))
             t = body[0]
+            # an identity is a raw key blob, or ('cert:NAME') a certificate the agent holds with its key; the
+            # agent signs only for blobs it was given - it knows nothing about certificates attached elsewhere
+            ident = {(p.cert_blob[k[5:]] if k.startswith('cert:') else p.blob[k]):
+                     (p.cert_spec[k[5:]]['key'] if k.startswith('cert:') else k) for k in keynames}
             if t == 11:
-                out = bytes([12]) + M.u32(len(keynames)) + b''.join(M.sstr(p.blob[k]) + M.sstr(k) for k in keynames)
+                out = bytes([12]) + M.u32(len(ident)) + b''.join(M.sstr(b) + M.sstr(k) for b, k in ident.items())
             elif t == 13:
                 r = M.Reader(body, 1)
                 blob, data = r.get_string(), r.get_string()
-                kn = [k for k in keynames if p.blob[k] == blob]
+                kn = [ident[blob]] if blob in ident else []
                 if kn:
                     sig = M.sstr('ssh-ed25519') + M.sstr(p.priv[kn[0]].sign(data))
                     out = bytes([14]) + M.sstr(sig)
@@ -833,7 +1014,10 @@ def run(ctx):
         'distinct = distinct (world, executed operation list, outcome). 40 fixed scenarios run first (one per mechanism '
         'and per refuted theorem). after success the probe starts exec / shell / subsystem / sftp sessions, pty and '
         'direct-tcpip, and a process_factory + sftp_factory + allow_scp server is driven by a real client per restricted '
-        'credential. client side: a real asyncssh client with password / key / certificate / agent-held '
+        'credential. host-based: single attempts (honest / spoofed host name, right / wrong key, right / wrong signature, '
+        'trust_client_host on / off) against known_client_hosts, compared with the modelled decision, and sequences of '
+        'attempts on one connection (oracle). client side: credential sources {local key, agent key} x {plain, '
+        'certificate from a file, certificate held by the agent}; a real asyncssh client with password / key / certificate / agent-held '
         'key against a real server.')
     ctx.cov['trusted_base'] += [
         'Model/Auth.v models _process_userauth_request, _finish_userauth, lookup_server_auth, the password / publickey / '
@@ -851,7 +1035,9 @@ def run(ctx):
         'on a connection that has been closed the correspondence only requires that the implementation did at least what '
         'the model did (tasks already scheduled still run one step before _cleanup); the oracle still judges every '
         'auth_completed() call',
-        'not modelled: GSS and host-based authentication, X.509, re-keying and EXT_INFO during authentication, login '
+        'host-based authentication: only the accept decision of one attempt is modelled (hb_decide); reverse lookup of the '
+        'peer address is replaced by a table (loop.getnameinfo of the harness loop); '
+        'not modelled: GSS authentication, sequencing of host-based attempts, X.509, re-keying and EXT_INFO during authentication, login '
         'timeout, server config Match blocks re-evaluated by reload_config, MSG types other than 2, 50, 60-79, >= 80; '
         'the client-side method iteration has no model (oracle only)',
         'MiniSSH (independent SSH peer), deterministic executor and future-completing application of harness/c05_engine.py',
@@ -861,6 +1047,7 @@ def run(ctx):
     stage_server(ctx)
     E.sshutil_run(client_half(ctx))
     E.sshutil_run(restriction_factories(ctx))
+    stage_hostbased(ctx)
 
 
 def replay(rp):
@@ -874,5 +1061,14 @@ def replay(rp):
             print('STILL FAILS [%s]: %s' % (cls, text))
         same = [b for b in bad if b[0] == rp.get('class')]
         return 1 if (same or (bad and not rp.get('class'))) else 0
+    if rp.get('kind') == 'hostbased':
+        attempts = [tuple(a) for a in rp['attempts']]
+        res, log = E.sshutil_run(hb_connection(rp['trust_client_host'], rp['user_ok_hosts'], attempts))
+        bad = 0
+        for a, got in zip(attempts, res):
+            want = hb_spec(rp['trust_client_host'], rp['user_ok_hosts'], *a)
+            print(a, 'accepted' if got else 'refused', '(entitled)' if want else '(not entitled)')
+            bad |= (got != want)
+        return 1 if bad else 0
     print('replay of kind', rp.get('kind'), 'needs the full stage; run ./check C05')
     return 2
